@@ -9,7 +9,9 @@ fn emit_c07(fam: &str, ctor: usize, f: &Joints, t: &Joints, w: f64, angles: &[Jo
     let c = match ctor {
         0 => Constraints::new(*f, *t, w),
         1 => Constraints::from_degrees([f[0]..=t[0], f[1]..=t[1], f[2]..=t[2], f[3]..=t[3], f[4]..=t[4], f[5]..=t[5]], w),
-        _ => { let mut c = Constraints::new([0.1; 6], [0.2; 6], w); c.update_range(*f, *t); c }
+        2 => { let mut c = Constraints::new([0.1; 6], [0.2; 6], w); c.update_range(*f, *t); c }
+        // an unconstrained object (from == to) whose `from` equals the new `from`
+        _ => { let mut c = Constraints::new(*f, *f, w); c.update_range(*f, *t); c }
     };
     let mut l = Line::new("C07", fam, "c07");
     l.n(ctor).j6(f).j6(t).f(w).n(angles.len());
@@ -51,6 +53,21 @@ pub fn c07(seed: u64, n: usize) {
             }
             ti += 6;
         }
+    }
+    // limits one ulp apart (a sliver arc, not "unconstrained") and update_range on an unconstrained object
+    for k in 0..40usize {
+        let base = [0.25, -0.5, 0.75, 0.1, -0.9, 0.3f64];
+        let f: Joints = std::array::from_fn(|i| base[(i + k) % 6] * if k % 2 == 0 { 1.0 } else { 0.5 });
+        let t: Joints = std::array::from_fn(|i| f64::from_bits(f[i].to_bits().wrapping_add(if f[i] > 0.0 { 1 } else { 0 }).max(f[i].to_bits())));
+        let t: Joints = std::array::from_fn(|i| if t[i] > f[i] { t[i] } else { f64::from_bits(f[i].to_bits() - 1) });
+        let angles: Vec<Joints> = (0..10).map(|_| rand_joints(&mut r, 3.0)).collect();
+        emit_c07("sliver/one-ulp", k % 3, &f, &t, 0.5, &angles);
+    }
+    for _ in 0..40 {
+        let f = rand_joints(&mut r, 2.0);
+        let mut t = f; for k in 0..6 { t[k] = f[k] + r.range(0.1, 2.0); }
+        let angles: Vec<Joints> = (0..20).map(|_| rand_joints(&mut r, 4.0)).collect();
+        emit_c07("update/from-unconstrained-same-from", 3, &f, &t, 0.5, &angles);
     }
     // random reals
     for _ in 0..(n / 20).max(20) {
@@ -197,22 +214,26 @@ pub fn c17(seed: u64, n: usize) {
             let mut l = Line::new("C17", "translation", "frame_tr");
             pt(&mut l, &p); pt(&mut l, &q); l.arrow().iso(&iso); l.emit();
         }
-        if i % 3 == 0 {
-            // forward_transformed
-            let (rfam, prm) = gen_params(&mut r);
+        if i % 3 == 0 { fwd_tr_cases("C17", &mut r, 1); }
+    }
+}
+
+/// `Frame::forward_transformed` cases
+pub fn fwd_tr_cases(prop: &str, r: &mut Rng, n: usize) {
+    for _ in 0..n {
+            let (rfam, prm) = gen_params(r);
             let ks = KSpec::bare(prm);
             let fr = Isometry3::from_parts(Translation3::new(r.range(-0.05, 0.05), r.range(-0.05, 0.05), r.range(-0.05, 0.05)),
                                            nalgebra::UnitQuaternion::from_scaled_axis(Vector3::new(r.range(-0.05, 0.05), r.range(-0.05, 0.05), r.range(-0.05, 0.05))));
             let f = Frame { robot: ks.build(), frame: fr };
-            let qs = rand_joints(&mut r, PI);
-            let prev = if r.chance(0.5) { qs } else { rand_joints(&mut r, PI) };
-            let mut l = Line::new("C17", &format!("{}/forward_transformed", rfam), "fwd_tr");
+            let qs = rand_joints(r, PI);
+            let prev = if r.chance(0.5) { qs } else { rand_joints(r, PI) };
+            let mut l = Line::new(prop, &format!("{}/forward_transformed", rfam), "fwd_tr");
             ks.encode(&mut l);
             l.iso(&fr).j6(&qs).j6(&prev).arrow();
             match catch(std::panic::AssertUnwindSafe(|| f.forward_transformed(&qs, &prev))) {
                 Some((sols, pose)) => { l.sols(&sols).iso(&pose); } None => { l.s("panic"); } }
             l.emit();
-        }
     }
 }
 
